@@ -5,6 +5,7 @@ import (
 	"sort"
 	"strconv"
 	"strings"
+	"verif/lib/bmgen"
 
 	"github.com/BondMachineHQ/BondMachine/pkg/procbuilder"
 )
@@ -173,9 +174,9 @@ func procJob(group string, ops []string, a arch) (Job, bool) {
 }
 
 type enumeration struct {
-	jobs     []Job
-	premise  int // configurations dropped because an opcode/mode need cannot be met on that architecture
-	bounds   map[string]any
+	jobs    []Job
+	premise int // configurations dropped because an opcode/mode need cannot be met on that architecture
+	bounds  map[string]any
 }
 
 func (e *enumeration) addProc(group string, ops []string, a arch) {
@@ -263,6 +264,33 @@ func enumerate(thorough bool) *enumeration {
 	for _, op := range dyn {
 		for _, a := range g {
 			e.addProc("dyn-single", []string{op}, a)
+		}
+	}
+	// word width against register width: every opcode (with j) on architectures whose instruction word is one bit
+	// narrower than, exactly as wide as, and one bit wider than the registers (generated text that slices or pads
+	// between the ROM word and a register changes shape exactly there). O and R are searched for each opcode.
+	for _, op := range append(append([]string(nil), st...), dyn...) {
+		for _, rsz := range []uint8{8, 16} {
+			found := map[int]bool{}
+			for _, r := range []uint8{1, 2, 3} {
+				for o := uint8(1); o <= 14; o++ {
+					a := arch{Rsize: rsz, R: r, N: 1, M: 1, L: 3, O: o, Mode: "ha"}
+					j, ok := procJob("word-vs-register", []string{op, "j"}, a)
+					if !ok {
+						continue
+					}
+					m, err := bmgen.NewMachine(bmgen.ArchSpec{Rsize: a.Rsize, R: a.R, N: a.N, M: a.M, L: a.L, O: a.O, Ops: j.Procs[0].Ops, Modes: []string{"ha"}, Threaded: j.Procs[0].Threaded})
+					if err != nil {
+						continue
+					}
+					d := m.Arch.Max_word() - int(rsz)
+					if d < -1 || d > 1 || found[d] {
+						continue
+					}
+					found[d] = true
+					e.jobs = append(e.jobs, j)
+				}
+			}
 		}
 	}
 	// shared-object baseline: a processor attached to each shared-object kind WITHOUT any of its opcodes
@@ -611,10 +639,10 @@ func (e *enumeration) enumBM(thorough bool) {
 	// is unconnected or fed by one of the internal outputs = processor outputs and external inputs):
 	// covers fan-out, unconnected endpoints on both sides, self loops, external pass-through.
 	type shape struct {
-		np    int
-		n, m  uint8
-		in    int
-		out   int
+		np   int
+		n, m uint8
+		in   int
+		out  int
 	}
 	shapes := []shape{{2, 1, 1, 1, 1}}
 	if thorough {
